@@ -259,6 +259,52 @@ def wl_sort(ctx, config):
             c2 = ctx.call("xonly_cmp", xi.b(1), xj.b(1), config=config)
             if c2 is not None: ctx.check(sign(c2.ret) == (a[1:] > b[1:]) - (a[1:] < b[1:]), "xonly_cmp:order", "%s vs %s -> %d" % (a.hex(), b.hex(), c2.ret), config)
 
+def near_x_family(rng, k=None):
+    """valid curve points whose x coordinates differ in exactly ONE byte (position k, any of the 32), with the y parity free to choose:
+    the encodings that tell a full 33-byte lexicographic comparison from one that stops early, skips a byte or mis-orders the parity byte"""
+    k = rng.randrange(32) if k is None else k
+    while True:
+        x0 = rng.randrange(p)
+        if lift_x(x0): break
+    out = []
+    for b in rng.sample(range(256), 256):
+        x = (x0 & ~(0xFF << (8 * (31 - k)))) | (b << (8 * (31 - k)))
+        if x < p and lift_x(x): out.append(lift_x(x))
+        if len(out) >= 6: break
+    return k, out
+
+def wl_near_keys(ctx, config):
+    rng = ctx.rng
+    def sign(x): return (x > 0) - (x < 0)
+    for kk in ctx.mine(list(range(32)) * (2 if ctx.quick else 40)):
+        k, fam = near_x_family(rng, kk)
+        pts = []
+        for P in fam:
+            pts.append(P if rng.random() < 0.5 else neg(P))
+            if rng.random() < 0.3: pts.append(neg(pts[-1]))
+        rng.shuffle(pts)
+        objs = [pkobj(ctx, P, config) for P in pts]
+        if any(o is None for o in objs) or len(objs) < 2: continue
+        for _ in range(6):
+            i, j = rng.sample(range(len(pts)), 2)
+            c = ctx.call("pubkey_cmp", objs[i], objs[j], config=config)
+            if c is None: continue
+            a, b = ser33(pts[i]), ser33(pts[j])
+            ctx.ev("pubkey_cmp", "x_differs_in_byte_%d" % k, True, a, b)
+            ctx.check(sign(c.ret) == (a > b) - (a < b), "pubkey_cmp:order", "%s vs %s -> %d" % (a.hex(), b.hex(), c.ret), config)
+            xi = ctx.call("xonly_from_pubkey", objs[i], 0, config=config); xj = ctx.call("xonly_from_pubkey", objs[j], 0, config=config)
+            if xi is not None and xj is not None:
+                c2 = ctx.call("xonly_cmp", xi.b(1), xj.b(1), config=config)
+                if c2 is not None: ctx.check(sign(c2.ret) == (a[1:] > b[1:]) - (a[1:] < b[1:]), "xonly_cmp:order", "%s vs %s -> %d" % (a.hex(), b.hex(), c2.ret), config)
+        r = ctx.call("pubkey_sort", b''.join(objs), len(objs), config=config)
+        if r is None: continue
+        perm = [r.i(1 + i) for i in range(len(objs))]
+        ctx.ev("pubkey_sort", "x_differs_in_byte_%d" % k, True, len(objs), *[ser33(P) for P in pts[:5]])
+        ok = r.ret == 1 and sorted(perm) == list(range(len(objs)))
+        if ok:
+            keys = [ser33(pts[j]) for j in perm]; ok = all(keys[i] <= keys[i + 1] for i in range(len(keys) - 1))
+        ctx.check(ok, "pubkey_sort:not_sorted:near_keys", "byte %d perm=%s keys=%s" % (k, perm, [ser33(P).hex() for P in pts]), config)
+
 def run(ctx):
     from vlib import smallgroup
     smallgroup.run(ctx, 'misc', {'tweak_reenc': 'accepted'})
@@ -267,3 +313,4 @@ def run(ctx):
         wl_history(ctx, config)
         wl_combine(ctx, config)
         wl_sort(ctx, config)
+        wl_near_keys(ctx, config)
